@@ -26,7 +26,14 @@ ASSUMPTIONS = [
     "file level (read with mnemonic_case preserve/upper/lower, write, re-read) is checked by the direct oracle on "
     "the implementation only; the file-level model belongs to C03/C05/C11. Mnemonics containing ':' cannot be "
     "written into a LAS header line and read back as a mnemonic (header grammar, C04), so literal 'A:1' names are "
-    "exercised through the API only",
+    "exercised through the API only.  write() emits ~V ~W ~C ~P ~O ~A only: for a custom section (~Tops) the read-side "
+    "clauses are checked, the write / re-read clauses have nothing to look at.  The first line of the written ~Version is "
+    "the item VERS that write() builds anew for the version it writes (C16's subject): after read(mnemonic_case='lower') "
+    "it is spelled VERS, not vers; that one mnemonic is compared ignoring case, every other ~Version item exactly",
+    "finding_of replays the history: a violation counts as the known finding suffix-clash only when the FIRST failing "
+    "clause is distinct / resolves / resolves_attr about two items that share a session name because one is literally "
+    "named u:<k> and the other is a u with the generated suffix :<k> (items_common.clash_pairs: compared as the section "
+    "compares names, 'A:01' is no generated suffix); the names occurring in the history decide nothing",
     "bulk comparison of observation texts goes through a three-sum digest computed on both sides; a sample of "
     "cases is compared as full text",
 ]
@@ -45,33 +52,54 @@ def useful(name):
 
 
 def state_violations(s):
-    """clauses that speak about one state"""
+    """clauses that speak about one state -> [(clause, text, (p, q) | None)]: p < q are the positions of the two
+    items the failure is about (two items under one session name; the item a lookup should and does resolve to)"""
     tr = s.mnemonic_transforms
     lst = list(list.__iter__(s))
     out = []
     seen = {}
+
+    def pos(obj):
+        return next((p for p, x in enumerate(lst) if x is obj), None)
+
+    def pair(p, q):
+        return None if p is None or q is None or p == q else (min(p, q), max(p, q))
     for j, it in enumerate(lst):
         k = norm(tr, it.mnemonic)
         if k in seen:
-            out.append(("distinct", "session mnemonic %r at positions %d and %d" % (it.mnemonic, seen[k], j)))
+            out.append(("distinct", "session mnemonic %r at positions %d and %d" % (it.mnemonic, seen[k], j), pair(seen[k], j)))
         else:
             seen[k] = j
     for j, it in enumerate(lst):
         k = it.mnemonic
         try:
-            if s[k] is not it:
-                out.append(("resolves", "s[%r] is not the item at position %d" % (k, j)))
+            got = s[k]
+            if got is not it:
+                out.append(("resolves", "s[%r] is not the item at position %d" % (k, j), pair(pos(got), j)))
         except Exception as e:      # noqa: BLE001
-            out.append(("resolves", "s[%r] raised %s" % (k, ic.exc(e))))
+            out.append(("resolves", "s[%r] raised %s" % (k, ic.exc(e)), None))
         if k not in dir(s):
             try:
-                if getattr(s, k) is not it:
-                    out.append(("resolves_attr", "getattr(s, %r) is not the item at position %d" % (k, j)))
+                got = getattr(s, k)
+                if got is not it:
+                    out.append(("resolves_attr", "getattr(s, %r) is not the item at position %d" % (k, j), pair(pos(got), j)))
             except Exception as e:      # noqa: BLE001
-                out.append(("resolves_attr", "getattr(s, %r) raised %s" % (k, ic.exc(e))))
+                out.append(("resolves_attr", "getattr(s, %r) raised %s" % (k, ic.exc(e)), None))
         if it.original_mnemonic.strip() == "" and not re.match(r"^UNKNOWN(:[0-9]+)?$", it.mnemonic):
-            out.append(("blank", "blank original shows as %r" % (it.mnemonic,)))
+            out.append(("blank", "blank original shows as %r" % (it.mnemonic,), None))
     return out
+
+
+EXPLAINED_CLAUSES = ("distinct", "resolves", "resolves_attr")
+
+
+def explained_by_clash(s, v):
+    """Is the violation v = (clause, text, pair) of state s one the known finding suffix-clash explains?  Only a
+    failure of `pairwise distinct` / `resolves to exactly its own item` about two items that carry the same session
+    name BECAUSE one of them is literally named  u:<k>  and the other is a u with the generated suffix :<k>
+    (ic.clash_pairs).  A wrong number, a renamed unique item, a changed original, a duplicate name without such a
+    literal are NOT explained, whatever names occur in the history."""
+    return v[0] in EXPLAINED_CLAUSES and v[2] is not None and v[2] in ic.clash_pairs(s)
 
 
 def step_violations(sim, op, result, before):
@@ -84,40 +112,41 @@ def step_violations(sim, op, result, before):
     # originals never altered
     for it in lst:
         if id(it) in old and old[id(it)][1] != it.original_mnemonic:
-            out.append(("orig", "original %r became %r" % (old[id(it)][1], it.original_mnemonic)))
+            out.append(("orig", "original %r became %r" % (old[id(it)][1], it.original_mnemonic), None))
     new = [it for it in lst if id(it) not in old]
     c = op[0]
     if c in INSERTING and result.startswith("ok") and new:
         name = {"a": 1, "i": 2, "r": 2, "s": 2, "x": 2, "g": 1, "h": 1}[c]
         if len(new) > 1:
-            out.append(("insert", "more than one new item"))
+            out.append(("insert", "more than one new item", None))
         for it in new:
             if it.original_mnemonic != op[name]:
-                out.append(("orig", "new item's original is %r, not %r" % (it.original_mnemonic, op[name])))
+                out.append(("orig", "new item's original is %r, not %r" % (it.original_mnemonic, op[name]), None))
             u = norm(tr, useful(it.original_mnemonic))
             group = [x for x in lst if norm(tr, useful(x.original_mnemonic)) == u]
             if len(group) > 1:
                 for r, x in enumerate(group):
                     exp = useful(x.original_mnemonic) + ":%d" % (r + 1)
                     if x.mnemonic != exp:
-                        out.append(("numbering", "group of %r: member %d is %r, expected %r" % (u, r + 1, x.mnemonic, exp)))
+                        out.append(("numbering", "group of %r: member %d is %r, expected %r" % (u, r + 1, x.mnemonic, exp), None))
             else:
                 if it.mnemonic != useful(it.original_mnemonic):
-                    out.append(("untouched", "unique name %r shows as %r" % (it.original_mnemonic, it.mnemonic)))
+                    out.append(("untouched", "unique name %r shows as %r" % (it.original_mnemonic, it.mnemonic), None))
             for x in lst:
                 if x not in group and id(x) in old and old[id(x)][2] != x.mnemonic:
-                    out.append(("untouched", "item outside the group renamed %r -> %r" % (old[id(x)][2], x.mnemonic)))
+                    out.append(("untouched", "item outside the group renamed %r -> %r" % (old[id(x)][2], x.mnemonic), None))
     else:
         for x in lst:
             if id(x) in old and old[id(x)][2] != x.mnemonic:
-                out.append(("untouched", "session mnemonic changed by a non-inserting operation: %r -> %r" % (old[id(x)][2], x.mnemonic)))
+                out.append(("untouched", "session mnemonic changed by a non-inserting operation: %r -> %r" % (old[id(x)][2], x.mnemonic), None))
         if new:
-            out.append(("insert", "a non-inserting operation added an item"))
+            out.append(("insert", "a non-inserting operation added an item", None))
     return out
 
 
 def check_seq(tr, curve, ops, initial=None):
-    """run the sequence on the implementation, oracle after every step -> violations"""
+    """run the sequence on the implementation, oracle after every step -> [(clause, text, explained by the known
+    finding?)] (the first failing clause of the first failing step; the history is not judged beyond it)"""
     viol = []
     sim = ic.Sim(tr, curve)
     if initial is not None:
@@ -127,8 +156,9 @@ def check_seq(tr, curve, ops, initial=None):
         r = sim.apply(o)
         bad = step_violations(sim, o, r, snap) + state_violations(sim.s)
         if bad:
-            name, text = bad[0]
-            viol.append((name, "after %s (transforms=%s, keys %s): %s" % (o, tr, [i.mnemonic for i in list.__iter__(sim.s)], text)))
+            name, text = bad[0][:2]
+            viol.append((name, "after %s (transforms=%s, keys %s): %s" % (o, tr, [i.mnemonic for i in list.__iter__(sim.s)], text),
+                         explained_by_clash(sim.s, bad[0])))
             break
     return viol
 
@@ -146,14 +176,18 @@ def expected_sessions(origs, tr):
     return out
 
 
-def make_file(wn, cn, pn):
-    lines = ["~Version", "VERS. 2.0 : v", "WRAP. NO : w", "~Well", "STRT.M 1.0 : start", "STOP.M 2.0 : stop",
-             "STEP.M 1.0 : step", "NULL. -999.25 : null"]
+def make_file(wn, cn, pn, vn=(), xn=None):
+    """vn: further ~Version items after VERS and WRAP; xn: items of a custom section ~Tops (None: no such section)"""
+    lines = ["~Version", "VERS. 2.0 : v", "WRAP. NO : w"]
+    lines += ["%s.U%d  v%d : version item %d" % (n, j, j, j) for j, n in enumerate(vn)]
+    lines += ["~Well", "STRT.M 1.0 : start", "STOP.M 2.0 : stop", "STEP.M 1.0 : step", "NULL. -999.25 : null"]
     lines += ["%s.U%d  w%d : well item %d" % (n, j, j, j) for j, n in enumerate(wn)]
     lines += ["~Curves", "DEPT.M : depth"]
     lines += ["%s.U%d  : curve %d" % (n, j, j) for j, n in enumerate(cn)]
     lines += ["~Parameter"]
     lines += ["%s.U%d  p%d : param %d" % (n, j, j, j) for j, n in enumerate(pn)]
+    if xn is not None:
+        lines += ["~Tops"] + ["%s.U%d  x%d : custom item %d" % (n, j, j, j) for j, n in enumerate(xn)]
     lines += ["~A"]
     for r in (1.0, 2.0):
         lines.append(" ".join(["%.1f" % r] + ["%d" % (10 * r + j) for j in range(len(cn))]))
@@ -167,14 +201,15 @@ def written_mnemonics(text):
         if line.startswith("~"):
             cur = line[1].upper()
             out.setdefault(cur, [])
-        elif cur in ("W", "C", "P") and line.strip() and not line.lstrip().startswith("#"):
+        elif cur in ("V", "W", "C", "P") and line.strip() and not line.lstrip().startswith("#"):
             out[cur].append(line.split(".", 1)[0].strip())
     return out
 
 
-def check_file(wn, cn, pn, mc):
+def check_file(wn, cn, pn, mc, vn=(), xn=None):
     import lasio
-    txt = make_file(wn, cn, pn)
+    vn = list(vn)
+    txt = make_file(wn, cn, pn, vn, xn)
     try:
         las = lasio.read(txt, mnemonic_case=mc)
     except Exception as e:      # noqa: BLE001
@@ -182,8 +217,12 @@ def check_file(wn, cn, pn, mc):
     tr = mc != "preserve"
     cm = (lambda x: x.upper()) if mc == "upper" else (lambda x: x.lower()) if mc == "lower" else (lambda x: x)
     exp_o = {"Well": [cm(x) for x in ["STRT", "STOP", "STEP", "NULL"] + wn], "Curves": [cm(x) for x in ["DEPT"] + cn],
-             "Parameter": [cm(x) for x in pn]}
+             "Parameter": [cm(x) for x in pn], "Version": [cm(x) for x in ["VERS", "WRAP"] + vn]}
+    if xn is not None:
+        exp_o["Tops"] = [cm(x) for x in xn]
     for sec, origs in exp_o.items():
+        if sec not in las.sections or not hasattr(las.sections[sec], "mnemonic_transforms"):
+            return "section %s of the file is not a SectionItems of the LASFile" % sec
         s = las.sections[sec]
         if s.mnemonic_transforms != tr:
             return "%s: mnemonic_transforms is %s for mnemonic_case=%s" % (sec, s.mnemonic_transforms, mc)
@@ -201,7 +240,9 @@ def check_file(wn, cn, pn, mc):
     out = io.StringIO()
     las.write(out, version=2.0)
     wm = written_mnemonics(out.getvalue())
-    for sec, letter in (("Well", "W"), ("Curves", "C"), ("Parameter", "P")):
+    for sec, letter in (("Version", "V"), ("Well", "W"), ("Curves", "C"), ("Parameter", "P")):
+        if sec == "Version" and wm.get("V") and wm["V"][0].upper() == "VERS":
+            wm["V"][0] = exp_o[sec][0]      # write() always builds a new item VERS for the version it writes (C16's subject)
         if wm.get(letter, []) != exp_o[sec]:
             return "%s: write() emitted mnemonics %r, originals are %r" % (sec, wm.get(letter), exp_o[sec])
     try:
@@ -209,6 +250,8 @@ def check_file(wn, cn, pn, mc):
     except Exception as e:      # noqa: BLE001
         return "re-read raised %s" % ic.exc(e)
     for sec in exp_o:
+        if sec == "Tops":
+            continue            # write() emits ~V ~W ~C ~P ~O ~A only: a custom section is not in the written text
         if las2.sections[sec].keys() != las.sections[sec].keys():
             return "%s: re-read session names %r differ from %r" % (sec, las2.sections[sec].keys(), las.sections[sec].keys())
         if [i.original_mnemonic for i in las2.sections[sec]] != [i.original_mnemonic for i in las.sections[sec]]:
@@ -264,7 +307,8 @@ def run_one(tr, curve, ops, keep_text):
             bad = step_violations(sim, o, r, snap) + state_violations(sim.s)
             if bad:
                 first_bad.append((bad[0][0], "after %s (transforms=%s, keys %s): %s"
-                                  % (o, tr, [i.mnemonic for i in list.__iter__(sim.s)], bad[0][1])))
+                                  % (o, tr, [i.mnemonic for i in list.__iter__(sim.s)], bad[0][1]),
+                                  explained_by_clash(sim.s, bad[0])))
     inp, exp, sim = ic.run_sequence(tr, curve, ops, mode="i", on_step=on_step)
     return inp, ic.digest(exp), (exp if keep_text else None), (first_bad[0] if first_bad else None), states
 
@@ -288,7 +332,7 @@ def work_chunk(job):
         out["cases"].append((inp, dig))
         out["states"] |= states
         if bad:
-            if ic.has_suffix_clash(ic.names_of_ops(ops)):
+            if bad[2]:                      # a failure the known finding explains: counted, two per chunk are kept
                 out["n_clash"] += 1
                 if out["n_clash"] > 2:
                     continue
@@ -339,7 +383,7 @@ def run(ctx):
         hist["random<=30"] = hist.get("random<=30", 0) + 1
         states |= st
         if bad:
-            if ic.has_suffix_clash(ic.names_of_ops(ops)):
+            if bad[2]:
                 n_clash_viol += 1
                 if n_clash_viol > 40:
                     continue
@@ -353,21 +397,23 @@ def run(ctx):
         wn = [rng.choice(FILE_NAMES) for _ in range(rng.randint(0, 4))]
         cn = [rng.choice(FILE_NAMES) for _ in range(rng.randint(0, 5))]
         pn = [rng.choice(FILE_NAMES) for _ in range(rng.randint(0, 5))]
+        # E: duplicated / blank / case-variant mnemonics in ~Version (after VERS, WRAP) and in a custom section too
+        vn = [rng.choice(FILE_NAMES) for _ in range(rng.randint(0, 3))] if rng.random() < 0.5 else []
+        xn = [rng.choice(FILE_NAMES) for _ in range(rng.randint(0, 4))] if rng.random() < 0.5 else None
         for mc in ("preserve", "upper", "lower"):
             n_file_cases += 1
-            bad = check_file(wn, cn, pn, mc)
+            bad = check_file(wn, cn, pn, mc, vn, xn)
             if bad:
-                res.oracle_violations.append({"payload": {"kind": "file", "w": wn, "c": cn, "p": pn, "mc": mc},
-                                              "what": "file W=%r C=%r P=%r mnemonic_case=%s: %s" % (wn, cn, pn, mc, bad)})
+                res.oracle_violations.append({"payload": {"kind": "file", "w": wn, "c": cn, "p": pn, "mc": mc, "v": vn, "x": xn},
+                                              "what": "file V=%r W=%r C=%r P=%r Tops=%r mnemonic_case=%s: %s" % (vn, wn, cn, pn, xn, mc, bad)})
         mc = rng.choice(["preserve", "upper", "lower"])
         tmpl = [t for t in ic.random_sequence(rng, 8, mc != "preserve", False) if t[0] in C13_CODES]
         n_file_cases += 1
-        for (name, text) in check_file_history(wn, cn, pn, mc, tmpl):
-            ops = ic.instantiate(tmpl, False)
-            if ic.has_suffix_clash(pn + ic.names_of_ops(ops)):
+        for (name, text, expl) in check_file_history(wn, cn, pn, mc, tmpl):
+            if expl:
                 n_clash_viol += 1
-                continue
-            res.oracle_violations.append({"payload": {"kind": "filehist", "w": wn, "c": cn, "p": pn, "mc": mc, "tmpl": [list(t) for t in tmpl]},
+            res.oracle_violations.append({"payload": {"kind": "filehist", "w": wn, "c": cn, "p": pn, "mc": mc, "tmpl": [list(t) for t in tmpl],
+                                                      "check": name},
                                           "what": "file P=%r mnemonic_case=%s then %s" % (pn, mc, text)})
     hist["files(read,write,re-read x3 cases + history)"] = n_file_cases
     res.oracle_violations.sort(key=lambda v: len(v["payload"].get("ops", [])) if v["payload"]["kind"] == "seq" else 99)
@@ -397,7 +443,7 @@ def run(ctx):
                 "get(add=True), setattr) over names {A,a,B,'',' ',A:1} x positions {0,1,-1,99(end),-99}: ALL sequences of "
                 "length 2 over the full alphabet (%d ops), ALL of length 4 over the core alphabet (%d ops)%s, random "
                 "sequences up to length 30, x mnemonic_transforms on/off (prefixes are covered because every step is "
-                "observed); plus generated LAS files with duplicated/blank/case-variant mnemonics in ~W/~C/~P read with "
+                "observed); plus generated LAS files with duplicated/blank/case-variant mnemonics in ~V/~W/~C/~P and a custom section read with "
                 "mnemonic_case preserve/upper/lower, written and re-read. distinct_nontrivial = distinct section states "
                 "(original/session name lists x flag) visited and checked by the direct oracle"
                 % (len(c13_alphabet(ic.full_alphabet())), len(ic.core_alphabet()),
@@ -411,7 +457,7 @@ def run(ctx):
 def replay(payload):
     k = payload.get("kind")
     if k == "file":
-        bad = check_file(payload["w"], payload["c"], payload["p"], payload["mc"])
+        bad = check_file(payload["w"], payload["c"], payload["p"], payload["mc"], payload.get("v", ()), payload.get("x"))
         return (bad is not None), (bad or "file round trip keeps names")
     if k == "filehist":
         v = check_file_history(payload["w"], payload["c"], payload["p"], payload["mc"], [tuple(t) for t in payload["tmpl"]])
@@ -423,24 +469,31 @@ def replay(payload):
 
 
 def finding_of(payload):
-    """suffix-clash: the history's mnemonics contain a literal u:<digits> original for a u that also occurs"""
+    """suffix-clash: the history is replayed; the violation belongs to the known finding only when the FIRST failing
+    clause is `distinct` / `resolves` / `resolves_attr` about two items that share a session name because one is
+    literally named u:<k> and the other is a u carrying the generated suffix :<k> (explained_by_clash).  Which
+    names occur in the history does not matter."""
     k = payload.get("kind")
-    if k == "seq":
-        return "suffix-clash" if ic.has_suffix_clash(ic.names_of_ops(payload["ops"])) else None
-    if k == "filehist":
-        ops = ic.instantiate([tuple(t) for t in payload["tmpl"]], False)
-        return "suffix-clash" if ic.has_suffix_clash(payload["p"] + ic.names_of_ops(ops)) else None
-    return None
+    try:
+        if k == "seq":
+            v = check_seq(payload["tr"], payload["curve"], payload["ops"])
+        elif k == "filehist":
+            v = check_file_history(payload["w"], payload["c"], payload["p"], payload["mc"], [tuple(t) for t in payload["tmpl"]])
+        else:
+            return None
+    except Exception:      # noqa: BLE001
+        return None
+    return "suffix-clash" if v and v[0][2] else None
 
 
 def search(ctx, res):
     for m in res.mismatches:
-        for (name, text) in check_seq(m["tr"], m["curve"], m["ops"]):
+        for (name, text, _e) in check_seq(m["tr"], m["curve"], m["ops"]):
             yield {"payload": seq_payload(m["tr"], m["curve"], m["ops"], name), "what": text}
     full = c13_alphabet(ic.full_alphabet())
     for n in (1, 2, 3):
         for tr in (False, True):
             for tm in ic.sequences(full, n):
                 ops = ic.instantiate(tm, False)
-                for (name, text) in check_seq(tr, False, ops):
+                for (name, text, _e) in check_seq(tr, False, ops):
                     yield {"payload": seq_payload(tr, False, ops, name), "what": text}
